@@ -181,6 +181,8 @@ class Watch:
             return
         fn = tree.body[0]
         delta = f.__code__.co_firstlineno - 1     # getsource starts at co_firstlineno (decorators included)
+        if not isinstance(fn, (ast.FunctionDef, ast.AsyncFunctionDef)):
+            return
         arms = {}
         for node in ast.walk(fn):
             if isinstance(node, ast.If) and first_test_name in ast.dump(node.test):
